@@ -369,3 +369,129 @@ func fdKey(p *packages.Package, fd *ast.FuncDecl) string {
 	}
 	return rel + "." + fd.Name.Name
 }
+
+// guardInfo describes what must have been false / true for control to reach a node.
+type guardInfo struct {
+	EarlyExits []*ast.IfStmt // preceding sibling `if c { ...; return/continue/break }` statements (c was false)
+	Enclosing  []condCtx     // enclosing if/else/case/loop contexts (innermost last)
+	Preceding  []ast.Stmt    // all statements that precede the node on the straight-line path to it (outermost first)
+}
+
+// guardsOf computes the guards on the syntactic path from the function body to target.
+func guardsOf(body *ast.BlockStmt, target ast.Node) (gi guardInfo, found bool) {
+	var walkList func(list []ast.Stmt) bool
+	var walkStmt func(s ast.Stmt) bool
+	contains := func(n ast.Node) bool {
+		return n != nil && n.Pos() <= target.Pos() && target.End() <= n.End()
+	}
+	walkList = func(list []ast.Stmt) bool {
+		for i, s := range list {
+			if !contains(s) {
+				continue
+			}
+			for _, prev := range list[:i] {
+				gi.Preceding = append(gi.Preceding, prev)
+				if ifs, ok := prev.(*ast.IfStmt); ok && terminates(ifs.Body.List) {
+					gi.EarlyExits = append(gi.EarlyExits, ifs)
+				}
+			}
+			return walkStmt(s)
+		}
+		return false
+	}
+	walkStmt = func(s ast.Stmt) bool {
+		if s == target {
+			return true
+		}
+		switch x := s.(type) {
+		case *ast.BlockStmt:
+			return walkList(x.List)
+		case *ast.IfStmt:
+			if x.Init != nil && contains(x.Init) {
+				return true
+			}
+			if contains(x.Cond) {
+				return true
+			}
+			if contains(x.Body) {
+				gi.Enclosing = append(gi.Enclosing, condCtx{x, true})
+				return walkList(x.Body.List)
+			}
+			if x.Else != nil && contains(x.Else) {
+				gi.Enclosing = append(gi.Enclosing, condCtx{x, false})
+				return walkStmt(x.Else)
+			}
+		case *ast.ForStmt:
+			if contains(x.Body) {
+				gi.Enclosing = append(gi.Enclosing, condCtx{x, true})
+				return walkList(x.Body.List)
+			}
+			return true
+		case *ast.RangeStmt:
+			if contains(x.Body) {
+				gi.Enclosing = append(gi.Enclosing, condCtx{x, true})
+				return walkList(x.Body.List)
+			}
+			return true
+		case *ast.SwitchStmt:
+			for _, cl := range x.Body.List {
+				cc := cl.(*ast.CaseClause)
+				if contains(cc) {
+					gi.Enclosing = append(gi.Enclosing, condCtx{cc, true})
+					return walkList(cc.Body)
+				}
+			}
+			return true
+		case *ast.TypeSwitchStmt:
+			for _, cl := range x.Body.List {
+				cc := cl.(*ast.CaseClause)
+				if contains(cc) {
+					gi.Enclosing = append(gi.Enclosing, condCtx{cc, true})
+					return walkList(cc.Body)
+				}
+			}
+			return true
+		case *ast.LabeledStmt:
+			return walkStmt(x.Stmt)
+		default:
+			return contains(s)
+		}
+		return false
+	}
+	found = walkList(body.List)
+	return
+}
+
+// findCalls lists calls in body whose callee satisfies pred, in source order.
+func findCalls(p *packages.Package, body ast.Node, pred func(types.Object) bool) []*ast.CallExpr {
+	var out []*ast.CallExpr
+	ast.Inspect(body, func(n ast.Node) bool {
+		if call, ok := n.(*ast.CallExpr); ok {
+			if pred(typeutil.Callee(p.TypesInfo, call)) {
+				out = append(out, call)
+			}
+		}
+		return true
+	})
+	return out
+}
+
+// enclosingStmt finds the innermost statement of body that contains n.
+func enclosingStmt(body *ast.BlockStmt, n ast.Node) ast.Stmt {
+	var best ast.Stmt
+	ast.Inspect(body, func(m ast.Node) bool {
+		if m == nil {
+			return false
+		}
+		if m.Pos() > n.Pos() || n.End() > m.End() {
+			return false
+		}
+		if s, ok := m.(ast.Stmt); ok {
+			if _, isBlock := s.(*ast.BlockStmt); !isBlock {
+				best = s
+			}
+		}
+		return true
+	})
+	return best
+}
